@@ -578,6 +578,8 @@ class Runner:
 
     def close(self):
         self.drv.close(); self.model.close()
+        if getattr(self, "group_model", None) is not None:
+            self.group_model.close()
 
     def write_case(self, wd, files):
         shutil.rmtree(wd, ignore_errors=True)
@@ -938,6 +940,18 @@ def norm_part(chk, drv, model):
                       broken="correspondence: Parse.NinjaEval.normalize_path")
 
 
+def same_up_to_error_order(run, wd, impl_recs, mod_recs):
+    """the two dumps agree once the error records of EACH declaration are sorted (the grouping of the errors by declaration
+    comes from the parser+loader model of props/ninjaparse.py run on the files of the case); False when that model is absent"""
+    try:
+        import props.ninjaparse as ninjaparse
+    except ImportError:
+        return False
+    if getattr(run, "group_model", None) is None:
+        run.group_model = vlib.Interactive(vlib.model_bin(ninjaparse.AREA))
+    return ninjaparse.same_up_to_error_order(run.group_model, wd, "main.ninja", impl_recs, mod_recs)
+
+
 def classify_diff(impl_recs, mod_recs):
     a = [r for r in impl_recs if r not in mod_recs]
     b = [r for r in mod_recs if r not in impl_recs]
@@ -1024,7 +1038,12 @@ def eval_part(chk, only_case=None):
                 obad = oracle(chk, run, case, wd, impl, stats)
                 for (k, what, extra) in obad:
                     chk.violation(k, what, case_replay(case, wd, dict(oracle="ninja %s" % NINJA, **extra)), found_input=True, broken="c17 oracle (installed ninja) on the implementation")
-            if impl_recs != mod_recs:
+            if impl_recs != mod_recs and same_up_to_error_order(run, wd, impl_recs, mod_recs):
+                # the same records, only the errors ONE declaration reports come in another order: the property fixes what the
+                # loaded statements mean, not the order of the diagnostics of one statement (both sides are normalised per
+                # declaration; errors of different declarations keep their order)
+                stats["identical_up_to_error_order_within_a_declaration"] = stats.get("identical_up_to_error_order_within_a_declaration", 0) + 1
+            elif impl_recs != mod_recs:
                 ndis += 1
                 a, b, ks = classify_diff(impl_recs, mod_recs)
                 if len(chk.notes.setdefault("disagreements", [])) < 3:
